@@ -15,11 +15,23 @@ Notation length := List.length.
 (* ---------------------------------------------------------------- constants *)
 Theorem gen_consts :
   gen_sfile_version = sfile_version
-  /\ gen_deleted_keys = deleted_keys
+  /\ gen_reserved = reserved_lower
   /\ gen_scan_pat = pat /\ gen_scan_incr = blank_extra
   /\ gen_update_prefix = gen_size_prefix /\ gen_update_width = gen_size_width
   /\ forall n, size_line n = gen_size_prefix ++ pad_left gen_size_width (dec n).
 Proof. repeat split; reflexivity. Qed.
+
+(* ---------------------------------------------------------------- SFile._make_header *)
+(* the model's _make_header is the translation of the source's statement sequence *)
+Lemma gen_strip_eq (pyval : Type) (h : hdict pyval) : gen_strip pyval h = strip_reserved pyval h.
+Proof.
+  induction h as [|[k v] t IH]; [reflexivity|]. cbn [gen_strip strip_reserved].
+  change (gen_is_stripped k) with (is_stripped k). rewrite IH. reflexivity.
+Qed.
+
+Theorem gen_make_header_eq (pyval : Type) v_str v_descr hdr dt :
+  gen_make_header pyval v_str v_descr hdr dt = make_header pyval v_str v_descr hdr dt.
+Proof. unfold gen_make_header, make_header. rewrite gen_strip_eq. reflexivity. Qed.
 
 (* ---------------------------------------------------------------- integer functions *)
 Theorem gen_count_nrows_eq filelen offset rs :
